@@ -1754,6 +1754,29 @@ func (c *evalCtx) comparisons() {
 			r.Check(good, rule, "types."+tn+"."+mn, p.pos(fn.Pos()), "receiver "+wantOp.String()+" argument", tn+"."+mn+" must compare receiver "+wantOp.String()+" argument (found `"+found+"`)")
 		}
 	}
+	// (b') who is comparable: the ordering operators accept whatever implements the evaluator's comparable interface, so
+	// the set of value kinds that implement it is part of the language table (long, datetime, duration — decimals compare
+	// through their own functions and `<` on them is a type error)
+	if ci := p.namedType(pEval, "ComparableValue"); ci == nil {
+		r.Anchor(rule, "eval.ComparableValue")
+	} else if iface, ok := ci.Underlying().(*types.Interface); ok {
+		want := map[string]bool{"Long": true, "Datetime": true, "Duration": true}
+		var extra, missing []string
+		for _, t := range valueImpls(p) {
+			n := strings.TrimPrefix(typeShort(t), "types.")
+			impl := types.Implements(t, iface) || types.Implements(types.NewPointer(t), iface)
+			if impl && !want[n] {
+				extra = append(extra, n)
+			}
+			if !impl && want[n] {
+				missing = append(missing, n)
+			}
+		}
+		sort.Strings(extra)
+		sort.Strings(missing)
+		r.Check(len(extra) == 0 && len(missing) == 0, rule, "eval.ComparableValue:implementers", p.pos(ci.Obj().Pos()), "implemented by exactly Long, Datetime, Duration",
+			"the value kinds that implement eval.ComparableValue are not exactly long, datetime and duration (additional: ["+strings.Join(extra, ",")+"], missing: ["+strings.Join(missing, ",")+"]): `<`, `<=`, `>`, `>=` accept every implementer, so the operators now accept or reject the wrong operand kinds")
+	}
 	// (c) equality evaluators: Equal with / without negation
 	for kind, wantNeg := range map[string]bool{"NodeTypeEquals": false, "NodeTypeNotEquals": true} {
 		em, _ := c.evalerFor(kind)
